@@ -637,3 +637,140 @@ func svOracle(a *mat, diag []float64) *ana {
 	}
 	return o
 }
+
+/* LDL + ForcePD where every pivot keeps its magnitude (d_j = |c_jj|)
+ * -------------------------------------------------------------------------- */
+
+// jet2 is a number with its derivatives along two directions u and v:
+// value, d/du, d/dv, d2/(du dv).  The forced-PD recurrence is evaluated on
+// jets by the oracle itself (independent of the library's magic scalars).
+type jet2 struct{ v, u, w, uw float64 }
+
+func (a jet2) sub(b jet2) jet2 { return jet2{a.v - b.v, a.u - b.u, a.w - b.w, a.uw - b.uw} }
+func (a jet2) add(b jet2) jet2 { return jet2{a.v + b.v, a.u + b.u, a.w + b.w, a.uw + b.uw} }
+func (a jet2) mul(b jet2) jet2 {
+	return jet2{a.v * b.v, a.u*b.v + a.v*b.u, a.w*b.v + a.v*b.w, a.uw*b.v + a.u*b.w + a.w*b.u + a.v*b.uw}
+}
+func (a jet2) inv() jet2 {
+	r := 1 / a.v
+	return jet2{r, -a.u * r * r, -a.w * r * r, -a.uw*r*r + 2*a.u*a.w*r*r*r}
+}
+func (a jet2) abs() jet2 {
+	if a.v < 0 {
+		return jet2{-a.v, -a.u, -a.w, -a.uw}
+	}
+	return a
+}
+
+// forcePDJets runs the modified factorisation c_jj = a_jj - sum l_jk^2 d_k,
+// d_j = |c_jj|, l_ij = (a_ij - sum l_ik l_jk d_k)/d_j on jets (lower triangle of
+// the symmetrised argument) and returns L, D and the smallest margin
+// |c_jj| / max((theta_j/beta)^2, delta) over the pivots.
+func forcePDJets(a, u, v *mat) ([]jet2, []jet2, float64, float64) {
+	n := a.r
+	at := func(i, j int) jet2 {
+		x := jet2{v: 0.5 * (a.at(i, j) + a.at(j, i))}
+		if u != nil {
+			x.u = 0.5 * (u.at(i, j) + u.at(j, i))
+		}
+		if v != nil {
+			x.w = 0.5 * (v.at(i, j) + v.at(j, i))
+		}
+		return x
+	}
+	gamma, xi := 0.0, 0.0
+	for i := 0; i < n; i++ {
+		for j := 0; j < n; j++ {
+			if i == j {
+				gamma = math.Max(gamma, math.Abs(a.at(i, i)))
+			} else {
+				xi = math.Max(xi, math.Abs(a.at(i, j)))
+			}
+		}
+	}
+	nu := math.Max(1, math.Sqrt(float64(n*n-1)))
+	beta := math.Sqrt(math.Max(math.Max(gamma, xi/nu), 1e-20))
+	l := make([]jet2, n*n)
+	d := make([]jet2, n*n)
+	margin, minPivot := math.Inf(1), math.Inf(1)
+	for j := 0; j < n; j++ {
+		l[j*n+j] = jet2{v: 1}
+		c := at(j, j)
+		for k := 0; k < j; k++ {
+			c = c.sub(l[j*n+k].mul(l[j*n+k]).mul(d[k*n+k]))
+		}
+		theta := 0.0
+		cij := make([]jet2, n)
+		for i := j + 1; i < n; i++ {
+			x := at(i, j)
+			for k := 0; k < j; k++ {
+				x = x.sub(l[i*n+k].mul(l[j*n+k]).mul(d[k*n+k]))
+			}
+			cij[i] = x
+			theta = math.Max(theta, math.Abs(x.v))
+		}
+		thr := 1e-20
+		if j != n-1 {
+			thr = math.Max(thr, (theta/beta)*(theta/beta))
+		}
+		margin = math.Min(margin, math.Abs(c.v)/thr)
+		minPivot = math.Min(minPivot, math.Abs(c.v))
+		d[j*n+j] = c.abs()
+		di := d[j*n+j].inv()
+		for i := j + 1; i < n; i++ {
+			l[i*n+j] = cij[i].mul(di)
+		}
+	}
+	return l, d, margin, minPivot
+}
+
+// forcePDOracle: outputs L (n^2) then D (n^2).
+func forcePDOracle(a *mat, eps float64) *ana {
+	n := a.r
+	o := &ana{dim: float64(n)}
+	l, d, margin, minPivot := forcePDJets(a, nil, nil)
+	na := math.Max(a.maxAbs(), 1e-300)
+	// locally smooth only while every pivot keeps its magnitude with room to
+	// spare (no tie in the maximum) and stays away from zero
+	if !(margin >= 4) || !(minPivot >= 1e-2*na) {
+		o.adm = "modification-active-or-near-tie"
+		return o
+	}
+	maxL, maxD := 1.0, 0.0
+	for i := range l {
+		o.ref = append(o.ref, l[i].v)
+		maxL = math.Max(maxL, math.Abs(l[i].v))
+	}
+	for i := range d {
+		o.ref = append(o.ref, d[i].v)
+		maxD = math.Max(maxD, math.Abs(d[i].v))
+	}
+	g := (1 + maxL) * (1 + maxL)
+	o.cond = g * maxD / minPivot
+	if !(o.cond <= condLimit(eps)) {
+		o.adm = "ill-conditioned"
+		return o
+	}
+	o.s0 = math.Max(maxL, maxD)
+	o.s1 = o.s0 * g / minPivot
+	o.s2 = 2 * o.s1 * g / minPivot
+	pack := func(l, d []jet2, f func(jet2) float64) []float64 {
+		r := make([]float64, 0, 2*n*n)
+		for _, x := range l {
+			r = append(r, f(x))
+		}
+		for _, x := range d {
+			r = append(r, f(x))
+		}
+		return r
+	}
+	o.f1 = func(u []*mat) []float64 {
+		l, d, _, _ := forcePDJets(a, zeroIfNil(u[0], n, n), nil)
+		return pack(l, d, func(x jet2) float64 { return x.u })
+	}
+	o.f2 = func(u, v []*mat) []float64 {
+		l, d, _, _ := forcePDJets(a, zeroIfNil(u[0], n, n), zeroIfNil(v[0], n, n))
+		return pack(l, d, func(x jet2) float64 { return x.uw })
+	}
+	return o
+}
